@@ -11,8 +11,37 @@ fn nontrivial(p: &Probes) -> bool {
     p.get("err_exit_on_open_ring") > 0 || p.get("open_ring_to_constructor") > 0
 }
 
+/// Watchdog: geo algorithms (and their dependencies) are called on arbitrary, mostly invalid
+/// rings here; one that does not terminate must not hang the check.  The run index in flight is
+/// written to the breadcrumb file and the process aborts (the driver records and tolerates it).
+static IN_FLIGHT: std::sync::atomic::AtomicU64 = std::sync::atomic::AtomicU64::new(u64::MAX);
+static TICK: std::sync::atomic::AtomicU64 = std::sync::atomic::AtomicU64::new(0);
+
+fn start_watchdog(a: &Args) {
+    let path = format!("{}/{}-shard{}.current", a.out_dir, a.prop, a.shard_i);
+    let seed = a.seed;
+    std::thread::spawn(move || {
+        let mut last = (u64::MAX, 0u64, 0u32);
+        loop {
+            std::thread::sleep(std::time::Duration::from_secs(1));
+            let cur = (IN_FLIGHT.load(std::sync::atomic::Ordering::Relaxed), TICK.load(std::sync::atomic::Ordering::Relaxed));
+            if cur.0 != u64::MAX && (cur.0, cur.1) == (last.0, last.1) {
+                last.2 += 1;
+                if last.2 >= 30 {
+                    let _ = std::fs::write(&path, format!("history of run {} (VERIF_SEED {}) did not finish within 30 s", cur.0, seed));
+                    eprintln!("WATCHDOG: history of run {} did not finish within 30 s", cur.0);
+                    std::process::abort();
+                }
+            } else {
+                last = (cur.0, cur.1, 0);
+            }
+        }
+    });
+}
+
 pub fn run(a: &Args) -> i32 {
     install_quiet_panic_hook();
+    start_watchdog(a);
     let t0 = Instant::now();
     let mut total = Probes::default();
     let mut evaluations: u64 = 0;
@@ -27,6 +56,8 @@ pub fn run(a: &Args) -> i32 {
     let enumerate_every: u64 = a.extra.get("enumerate-every").and_then(|s| s.parse().ok()).unwrap_or(0);
 
     let mut judge = |h: &History, r: u64, origin: &str, total: &mut Probes, hashes: &mut Vec<u64>, samples: &mut Vec<Value>, violations: &mut Vec<Value>| {
+        IN_FLIGHT.store(r, std::sync::atomic::Ordering::Relaxed);
+        TICK.fetch_add(1, std::sync::atomic::Ordering::Relaxed);
         let res = std::panic::catch_unwind(|| run_history(h));
         let hj = serde_json::to_vec(h).unwrap();
         match res {
